@@ -5,7 +5,9 @@
      detach p     KeyError when p is free, otherwise p is freed; nothing else changes
      an Interest named n goes to the handler of the longest occupied prefix of n, to nobody when no
        prefix of n is occupied; it is invoked once, when the loop next runs
-     reply at time t is transmitted iff t <= arrival + lifetime, and returns exactly that fact     *)
+     reply at time t is transmitted iff t <= arrival + lifetime and the face is up at that moment; the
+       callback tells the application exactly that fact: it reports "sent" (returns True) iff the Data
+       went out on the face -- when nothing went out it returns False or raises NetworkError           *)
 From NDN Require Import Base.Prelude Model.Name Model.Dispatch.
 Local Open Scope N_scope.
 
@@ -31,6 +33,9 @@ Definition s_lookup (a : amap) (n : name) : option (name * N) :=
 
 (* reply: transmitted iff the lifetime has not elapsed; the return value says which *)
 Definition s_reply_sent (deadline now : N) : bool := now <=? deadline.
+(* ... and nothing can be transmitted over a face that is down (connection lost / shut down, possibly
+   between the delivery of the Interest and the reply) *)
+Definition s_reply_out (deadline now : N) (up : bool) : bool := s_reply_sent deadline now && up.
 
 Record sst := mk_sst { ss_att : amap; ss_pending : list call; ss_calls : list call }.
 Definition sst0 : sst := mk_sst a_empty [] [].
@@ -41,14 +46,14 @@ Inductive sop :=
 | SDetach (p : name)
 | SRecv (n : name) (life : option N) (now : N)
 | SSettle
-| SReply (i : nat) (now : N)        (* face up *)
+| SReply (i : nat) (now : N) (up : bool)   (* up: the state of the face when reply is called *)
 | SDisconnect.
 
 Inductive sobs :=
 | SoOk | SoRefused | SoKeyError | SoNothing
 | SoCalls (l : list call)
 | SoDispatch (b : bool) (l : list call)
-| SoReply (sent : bool) (reported : bool)
+| SoReply (sent : bool) (reported : bool)   (* reported: the callback told the application "sent" *)
 | SoNoSuchCall.
 
 Definition sstep (fe : frontend) (s : sst) (o : sop) : sst * sobs :=
@@ -74,10 +79,10 @@ Definition sstep (fe : frontend) (s : sst) (o : sop) : sst * sobs :=
       | _ => (mk_sst (ss_att s) (ss_pending s ++ hit) (ss_calls s), SoNothing)
       end
   | SSettle => (mk_sst (ss_att s) [] (ss_calls s ++ ss_pending s), SoCalls (ss_pending s))
-  | SReply i now =>
+  | SReply i now up =>
       match nth_error (ss_calls s) i with
       | None => (s, SoNoSuchCall)
-      | Some c => let sent := s_reply_sent (c_deadline c) now in (s, SoReply sent sent)
+      | Some c => let sent := s_reply_out (c_deadline c) now up in (s, SoReply sent sent)
       end
   | SDisconnect =>
       match fe with
@@ -101,8 +106,8 @@ Definition attached (t : fib) (p : name) : option N :=
 (* histories the specification talks about: handlers are callables (not None) *)
 Definition wf_op (o : op) : Prop := match o with OAttach _ None _ _ => False | _ => True end.
 
-(* ... and, for the event-by-event comparison, replies are made through a v2 handler's callback while
-   the face is up *)
+(* ... and, for the event-by-event comparison, replies are made through a v2 handler's callback (the
+   face may be up or down at that moment) *)
 Definition sop_of (fe : frontend) (o : op) : option sop :=
   match o with
   | OAttach k (Some h) _ _ => Some (SAttach k h)
@@ -110,8 +115,7 @@ Definition sop_of (fe : frontend) (o : op) : option sop :=
   | ODetach k => Some (SDetach k)
   | ORecv n life now => Some (SRecv n life now)
   | OSettle => Some SSettle
-  | OReply i now true => match fe with FE_V2 => Some (SReply i now) | _ => None end
-  | OReply _ _ false => None
+  | OReply i now running => match fe with FE_V2 => Some (SReply i now running) | _ => None end
   | OCleanUp => Some SDisconnect
   end.
 Fixpoint sops_of (fe : frontend) (l : list op) : option (list sop) :=
@@ -127,6 +131,7 @@ Definition abs_obs (o : obs) : option sobs :=
   | ObErr EValue => Some SoRefused
   | ObErr EKey => Some SoKeyError
   | ObErr EIndex => Some SoNoSuchCall
+  | ObErr (EOther 1) => Some (SoReply false false)   (* E_NETWORK out of reply(): nothing sent, "sent" not reported *)
   | ObErr _ => None
   | ObRecv _ => Some SoNothing
   | ObCalls l => Some (SoCalls l)
